@@ -90,6 +90,31 @@ fn c01_rebuild_interest_prunes_and_publishes_max_level_bounded() {
     assert!(LevelFilter::current() == filter_of(want), "C01.rebuild_interest.max_level_is_max_of_live_hints_none_counts_as_TRACE");
 }
 
+// rebuild_interest re-evaluates EVERY registered callsite, whatever the previously published maximum level and whatever
+// stale byte the callsite holds (the 2 x 2 version with dropped registrars is the thorough tier's c01_rebuild_interest_bounded)
+// BOUND: 1 live registrar x 1 callsite, arbitrary prior cache byte and prior MAX_LEVEL
+#[kani::proof]
+#[kani::unwind(4)]
+#[kani::stub(core::fmt::Formatter::pad, pad_stub)]
+fn c01_rebuild_interest_reevaluates_the_callsite_whatever_the_old_max_level_bounded() {
+    let a: u8 = nd(); kani::assume(a <= 2);
+    let (hints, hk) = any_hints();
+    let p0: u8 = nd(); CS0.seen.store(p0, AO::SeqCst);
+    let (prior_max, _) = any_filter();
+    LevelFilter::set_max(prior_max);
+    static R0: Registration = Registration::new(&CS0);
+    let list: Callsites = LinkedList::new();
+    list.push(&R0);
+    let d0 = Dispatch::__verif_unregistered(Stub { i: 0, answer: [a, a], hint: hints[0] });
+    let mut regs = Vec::with_capacity(1);
+    regs.push(d0.registrar());
+    rebuild_interest(&list, &mut regs);
+    assert!(CS0.seen.load(AO::SeqCst) == a, "C01.rebuild_interest.every_callsite_is_re_evaluated_whatever_the_old_max_level_was");
+    let want = if hk[0] == 6 { 5 } else { hk[0] };
+    assert!(LevelFilter::current() == filter_of(want), "C01.rebuild_interest.max_level_is_the_live_collectors_hint_or_TRACE");
+    core::mem::forget(d0);
+}
+
 // TIER: thorough
 // NOTE: 775 s / 17 GB measured; the quick tier relies on c01_rebuild_callsite_interest_bounded + the Verus lemmas
 // BOUND: 2 registrars (each live or dropped) x 2 callsites, arbitrary prior cache bytes and prior MAX_LEVEL
